@@ -39,8 +39,14 @@ fn long_name(n: usize) -> String {
 /// fragment separator of the styled mode: the text is a sequence of separately styled tokens
 /// (text, literal, emphasis, text, ..) instead of one plain string
 pub const SEP: char = '\u{1f}';
+/// the same with another rotation of styles: nested document, text, nested document, emphasis
+pub const SEP2: char = '\u{1e}';
 
 fn spec(text: &str) -> DocSpec {
+    if text.contains(SEP2) {
+        let stys = [Sty::Nested, Sty::Text, Sty::Nested, Sty::Em];
+        return DocSpec(text.split(SEP2).enumerate().map(|(i, f)| (stys[i % 4], f.to_string())).collect());
+    }
     if !text.contains(SEP) {
         return DocSpec::plain(text);
     }
@@ -97,7 +103,7 @@ pub fn skeleton(k: usize, text: &str) -> Opts {
 }
 
 fn strip_ws(s: &str) -> String {
-    s.chars().filter(|c| !c.is_whitespace() && *c != SEP).collect()
+    s.chars().filter(|c| !c.is_whitespace() && *c != SEP && *c != SEP2).collect()
 }
 
 /// cut a text at its first blank line, the way the short help is documented to do
@@ -220,8 +226,11 @@ pub fn check_text(unit: &Value, k: usize, text: &str, widths: &[usize], only_wid
             // styled mode: a blank line that only exists across two tokens is not judged
             // nor is one inside a nested document (it ends that document's own first paragraph;
             // whether it also ends the enclosing text's is not specified)
-            let across = text.contains(SEP)
-                && (text.replace(SEP, "").matches("\n\n").count() != text.matches("\n\n").count() || text.split(SEP).enumerate().any(|(i, f)| i % 4 == 1 && f.contains("\n\n")));
+            let (sep, nested): (Option<char>, &[usize]) = if text.contains(SEP) { (Some(SEP), &[1]) } else if text.contains(SEP2) { (Some(SEP2), &[0, 2]) } else { (None, &[]) };
+            let across = match sep {
+                Some(sp) => text.replace(sp, "").matches("\n\n").count() != text.matches("\n\n").count() || text.split(sp).enumerate().any(|(i, f)| nested.contains(&(i % 4)) && f.contains("\n\n")),
+                None => false,
+            };
             if !full && !across {
                 let o2 = skeleton(k, first_par(text));
                 if let Ok(p2) = build_checked(&o2) {
@@ -300,6 +309,11 @@ impl Check for C13 {
             if u.styled && !s.contains(SEP) {
                 continue;
             }
+            if u.styled {
+                // the other rotation of styles (two nested documents around a text): only the
+                // short-help clause, the widths are covered by the first rotation
+                check_text(unit, u.skeleton, &s.replace(SEP, &SEP2.to_string()), &u.widths, Some(0), ctx);
+            }
             check_text(unit, u.skeleton, &s, &u.widths, None, ctx);
         }
     }
@@ -313,7 +327,7 @@ impl Check for C13 {
         check_text(unit, k, &text, &u.widths, Some(w), ctx);
     }
     fn rule(&self) -> String {
-        "documents = help (and sub-command help, and an error message) of 12 layout skeletons (item help with term widths around the tab stop, descr, header+footer, group title, positional help, command help, env row + fallback suffix, adjacent heading, long usage line) with the text slot ranging over EVERY concatenation of <=3 (thorough 4) fragments from {word, 120-char word, space, newline, blank line, newline+space, code line, é, 日本語, tab, NBSP, ESC sequence, --flag}, as one plain string and as a sequence of separately styled tokens (text / literal / nested document / emphasis; quick: every seventh width); each document rendered at every width (quick: 1..100, 120, 200, 300; thorough: 1..300) via the Display width and at 65535 as 'unwrapped'; (a) identical once whitespace is removed, (b) for widths >= 40 no line longer than width+2 unless what follows the indentation/term is a single unbreakable word or it is a code line, (c) monochrome(false) equals monochrome(true) of the same definition with the text cut at its first blank line; evaluation = one render; non-trivial = render at width > 1 satisfying (a),(b)".into()
+        "documents = help (and sub-command help, and an error message) of 12 layout skeletons (item help with term widths around the tab stop, descr, header+footer, group title, positional help, command help, env row + fallback suffix, adjacent heading, long usage line) with the text slot ranging over EVERY concatenation of <=3 (thorough 4) fragments from {word, 120-char word, space, newline, blank line, newline+space, code line, é, 日本語, tab, NBSP, ESC sequence, --flag}, as one plain string and as a sequence of separately styled tokens (two rotations: text / nested document / literal / emphasis and nested document / text / nested document / emphasis; quick: every seventh width); each document rendered at every width (quick: 1..100, 120, 200, 300; thorough: 1..300) via the Display width and at 65535 as 'unwrapped'; (a) identical once whitespace is removed, (b) for widths >= 40 no line longer than width+2 unless what follows the indentation/term is a single unbreakable word or it is a code line, (c) monochrome(false) equals monochrome(true) of the same definition with the text cut at its first blank line; evaluation = one render; non-trivial = render at width > 1 satisfying (a),(b)".into()
     }
     fn bounds(&self, tier: Tier) -> Value {
         json!({"fragments_per_string": tier.pick(3, 4), "widths": tier.pick("1..100, 120, 200, 300", "1..300"), "skeletons": 12})
